@@ -267,6 +267,17 @@ def volatile_free(rec_obs):
   }
 
 
+@st.composite
+def with_transient_plug(draw, programs):
+  """One program in six uses a plug whose constructor fails the first time only (a transient fault of run 0)."""
+  prog = draw(programs)
+  ph = progs.all_phases(prog)
+  if ph and draw(st.integers(0, 5)) == 0:
+    prog['plugs'] = [{'ctor': 'raise-once', 'td': 'ok', 'base': None}]
+    ph[draw(st.integers(0, len(ph) - 1))]['plugs'] = [['dev', 0, True]]
+  return prog
+
+
 def nested_metadata():
   return {'events': [], 'fixture': {'cycles': 0}}
 
@@ -337,6 +348,16 @@ def check_runs(case):
           run, tree_before, fp(test.descriptor.phase_sequence)))
       break
   ctx.cancel.set()
+  transient = any(pl.get('ctor') == 'raise-once' for pl in prog.get('plugs') or [])
+  if transient:
+    # run 0 suffered the fault; the later runs must not: compare them with each other, and none of them may blame the plug
+    for k, rec in enumerate(got[1:], 1):
+      codes = [d.code for d in rec.outcome_details]
+      if 'InvalidPlugError' in codes or 'PlugBoom' in codes:
+        r.bad('C11/runs/record-depends-on-earlier-run/plug-fault-sticks', 'run %d (no fault injected) ended %s with details %r after run 0 had a failing plug constructor' % (
+            k, rec.outcome.name, codes))
+        break
+    summaries = summaries[1:]
   if len(summaries) >= 2 and not timeouts:
     for k, s in enumerate(summaries[1:], 1):
       if s != summaries[0]:
@@ -550,7 +571,8 @@ def run_job(job, acct):
   elif job['kind'] == 'derive':
     hyp.search(acct, derive_cases(), check_derive, seed=job['hseed'], max_examples=job['n'], known=known)
   elif job['kind'] == 'runs':
-    strat = st.builds(lambda p, n: {'prog': p, 'runs': n}, progs.programs(strict=False, max_nodes=8, maxdepth=2, with_test_start=True), st.sampled_from([2, 2, 3]))
+    strat = st.builds(lambda p, n: {'prog': p, 'runs': n}, with_transient_plug(progs.programs(strict=False, max_nodes=8, maxdepth=2, with_test_start=True)),
+                      st.sampled_from([2, 2, 3]))
     hyp.search(acct, strat, check_runs, seed=job['hseed'], max_examples=job['n'], known=known)
   else:
     strat = st.builds(lambda p: {'prog': p, 'concurrent': 1}, progs.programs(strict=False, max_nodes=6, maxdepth=2, with_test_start=False))
